@@ -234,12 +234,17 @@ def decodeAll (T : Tags) (bs : Bytes) : Option (List Val) := decodeAllF T bs.len
 
 /-! ## byte-string order, sorting -/
 
-/-- Go's `<` on strings: bytewise lexicographic -/
-def bytesLt : Bytes → Bytes → Bool
+/-- lexicographic lift of a strict order (shorter prefix first) -/
+def lexLt {α : Type} (lt : α → α → Bool) : List α → List α → Bool
   | [], [] => false
   | [], _ :: _ => true
   | _ :: _, [] => false
-  | a :: as, b :: bs => if a.toNat < b.toNat then true else if b.toNat < a.toNat then false else bytesLt as bs
+  | a :: as, b :: bs => if lt a b then true else if lt b a then false else lexLt lt as bs
+
+def u8Lt (a b : UInt8) : Bool := decide (a.toNat < b.toNat)
+
+/-- Go's `<` on strings: bytewise lexicographic -/
+def bytesLt (a b : Bytes) : Bool := lexLt u8Lt a b
 
 def insertBy {α : Type} (le : α → α → Bool) (x : α) : List α → List α
   | [] => [x]
@@ -428,7 +433,7 @@ def goSort {α : Type} (less : α → α → Bool) (l : List α) : List α :=
   (l.foldl (fun acc x => insRev less x acc) []).reverse
 
 /-- the sort key `TupleKeys.Less` looks at -/
-def tupleKey (t : Tup) : Bytes × Bytes × Bytes × Bytes := (t.object, t.relation, t.user, condName t.cond)
+def tupleKey (t : Tup) : List Bytes := [t.object, t.relation, t.user, condName t.cond]
 
 /-! ## key layouts (plain sequences of EncodeString / EncodeUint64) -/
 
@@ -524,6 +529,32 @@ def invariantPre (T : Tags) (srt : List Tup → List Tup) (store model : Bytes) 
     (tuples : List Tup) : Bytes :=
   encStr T store ++ (encStr T model ++ (arrHdr T (srt tuples).length ++ (encTuples T (srt tuples) ++
     enc T (pbToVal (.struct ctx)))))
+
+/-! ## the key functions (layout = field list of the site, parsed from `Gen.Keys.*Ops` by the driver,
+pinned by tie lemmas in the proofs); `H` is the digest -/
+
+def checkKey (T : Tags) (L : List Field) (store object relation user : Bytes) (invariant : UInt64) : Bytes :=
+  encLayout T (envOf [("storeID", store), ("object", object), ("relation", relation), ("user", user)]
+    [("invariant", invariant)]) L
+
+def invariantKey (T : Tags) (H : Bytes → UInt64) (srt : List Tup → List Tup) (store model : Bytes)
+    (ctx : List (Bytes × PbV)) (tuples : List Tup) : UInt64 :=
+  H (invariantPre T srt store model ctx tuples)
+
+def readKey (T : Tags) (H : Bytes → UInt64) (L : List Field) (store object relation user : Bytes)
+    (conds : List Bytes) : Bytes :=
+  encLayout T (envOf [("store", store), ("filter.Object", object), ("filter.Relation", relation), ("filter.User", user)]
+    [("suffix", H (readKeyPre T conds))]) L
+
+def rutKey (T : Tags) (H : Bytes → UInt64) (L : List Field) (store object relation : Bytes)
+    (refs : List RelRef) (conds : List Bytes) : Bytes :=
+  encLayout T (envOf [("store", store), ("filter.Object", object), ("filter.Relation", relation)]
+    [("suffix", H (rutPre T refs conds))]) L
+
+def rswuKey (T : Tags) (H : Bytes → UInt64) (L : List Field) (store objectType relation : Bytes)
+    (userFilter : List (Bytes × Bytes)) (oids : Option (List Bytes)) (conds : List Bytes) : Bytes :=
+  encLayout T (envOf [("store", store), ("filter.ObjectType", objectType), ("filter.Relation", relation)]
+    [("suffix", H (rswuPre T userFilter oids conds))]) L
 
 /-! ## xxhash64 (github.com/cespare/xxhash/v2, `NewWithSeed`) — driver only -/
 
